@@ -92,6 +92,7 @@ type Frame struct {
 	retPos  token.Pos
 	frame   *frameSpec
 	ghostArgs map[string]Val
+	curPos  token.Pos
 }
 
 func (vc *VC) newFrame(fn *ssa.Function, parent *Frame) *Frame {
